@@ -513,3 +513,116 @@ class SymDecStr(str):
 
     def __repr__(self):
         return f"SymDecStr({self.value!r})"
+
+
+class SymText(str):
+    """structured symbolic text produced by formatting: a sequence of pieces
+         "literal"                       concrete text
+         ("num", value, width)           decimal digits of a non-negative integer, zero-padded to `width` (width 0: canonical decimal, may be negative)
+         ("iso", us)                     datetime.isoformat() of the naive instant `us` microseconds after 0001-01-01 (whole seconds): opaque and injective
+       Two texts are compared piece by piece (after merging adjacent literals); that is sound for the formats used here because every
+       numeric piece has a fixed width or is delimited by literals."""
+
+    _vf_sym = True
+
+    def __new__(cls, pieces=()):
+        o = str.__new__(cls, "")
+        norm = []
+        for p in pieces:
+            if isinstance(p, str) and not isinstance(p, SymText):
+                if p == "":
+                    continue
+                if norm and isinstance(norm[-1], str):
+                    norm[-1] = norm[-1] + p
+                else:
+                    norm.append(str(p))
+            else:
+                norm.append(p)
+        o.pieces = norm
+        return o
+
+    @staticmethod
+    def lift(x):
+        if isinstance(x, SymText):
+            return x
+        if isinstance(x, SymStr):
+            c = x.concrete()
+            if c is None:
+                raise Unsupported("symbolic characters inside formatted text")
+            return SymText([c])
+        if isinstance(x, str):
+            return SymText([x])
+        return None
+
+    def __hash__(self):
+        return 0
+
+    def __copy__(self):
+        return self
+
+    def __deepcopy__(self, memo):
+        return self
+
+    def __bool__(self):
+        return bool(self.pieces)
+
+    def __str__(self):
+        return self
+
+    def __repr__(self):
+        return "SymText(%r)" % (self.pieces,)
+
+    def __format__(self, spec):
+        if spec:
+            raise Unsupported("format spec on formatted text")
+        return self
+
+    def __add__(self, o):
+        o = SymText.lift(o)
+        return NotImplemented if o is None else SymText(self.pieces + o.pieces)
+
+    def __radd__(self, o):
+        o = SymText.lift(o)
+        return NotImplemented if o is None else SymText(o.pieces + self.pieces)
+
+    def __len__(self):
+        raise Unsupported("length of formatted text")
+
+    def __getitem__(self, i):
+        raise Unsupported("characters of formatted text inspected")
+
+    def __eq__(self, o):
+        o = SymText.lift(o) if isinstance(o, str) else None
+        if o is None:
+            return NotImplemented
+        if len(self.pieces) != len(o.pieces):
+            return False
+        parts = []
+        for a, b in zip(self.pieces, o.pieces):
+            if isinstance(a, str) or isinstance(b, str):
+                if a != b:
+                    return False
+                continue
+            if a[0] != b[0] or (a[0] == "num" and a[2] != b[2]):
+                return False
+            parts.append(a[1] == b[1])
+        return sym.sym_and(*parts)
+
+    def __ne__(self, o):
+        r = self.__eq__(o)
+        return r if r is NotImplemented else sym.sym_not(r)
+
+    def concrete_with(self, ev):
+        """the concrete string under a model evaluator ev(value) -> int; iso pieces through datetime"""
+        import datetime as _dt
+
+        out = []
+        for p in self.pieces:
+            if isinstance(p, str):
+                out.append(p)
+            elif p[0] == "num":
+                v = ev(p[1])
+                out.append(str(v).zfill(p[2]) if p[2] else str(v))
+            else:
+                out.append((_dt.datetime(1, 1, 1) + _dt.timedelta(microseconds=ev(p[1]))).isoformat())
+        return "".join(out)
